@@ -444,6 +444,11 @@ FamClean(K, CH) ==
                            Build(<<>>, 2, 1)>>) : k \in Droppable(gr), n \in BOOLEAN} :
           gr \in CleanGraphs(K) }
 
+\* graphs for the design-level model checking of NinjaImplMC (no histories: TLC explores them)
+FamMC(K, CH) ==
+  UNION {GraphsS(sh, {"plain", "restat", "gcc", "two", "gen", "depfile"}, K) : sh \in {"chain2", "fanin", "fanout", "implicit", "oonly", "alias", "valid", "mixed", "chain3"}}
+  \cup UNION {{WithPools(gr, pa) : pa \in RandomSubset(1, [1..Len(gr.stmts) -> PoolNames])} : gr \in GraphsS("wide4", {"plain", "restat"}, 2)}
+
 ParK == IF "K" \in DOMAIN IOEnv THEN atoi(IOEnv.K) ELSE 3
 ParCH == IF "CH" \in DOMAIN IOEnv THEN atoi(IOEnv.CH) ELSE 3
 
@@ -454,6 +459,7 @@ Family(name) ==
     [] name = "sched" -> FamSched(ParK, ParCH)
     [] name = "fail" -> FamFail(ParK, ParCH)
     [] name = "rand" -> FamRand(ParK, ParCH)
+    [] name = "mc" -> FamMC(ParK, ParCH)
     [] name = "clean" -> FamClean(ParK, ParCH)
     [] name = "restat" -> FamRestat(ParK, ParCH)
     [] name = "dry" -> FamDry(ParK, ParCH)
